@@ -8,6 +8,8 @@ use serde_json::{Value, json};
 use vrp_core::construction::features::JobDemandDimension;
 use vrp_core::models::common::{Demand, MultiDimLoad, SingleDimLoad};
 use vrp_core::models::problem::{JobIdDimension, Multi, TravelTime, VehicleIdDimension};
+#[allow(unused_imports)]
+use vrp_pragmatic::format::JobTypeDimension as _;
 use vrp_core::models::solution::Route;
 use vrp_pragmatic::format::{JobTypeDimension, PlaceTagsDimension, ShiftIndexDimension};
 use vrp_verif_harness::pragen::*;
@@ -229,8 +231,58 @@ fn exec(case: &Value) -> Value {
         Ok(Ok(doc)) => doc,
     };
     let routes = routes_dump;
+    // what the solver left out, as the core solution holds it, and what the writer listed for it (reasons of one job sorted by
+    // code: their order comes out of a hash map)
+    use vrp_core::construction::heuristics::UnassignmentInfo;
+    let unassigned_dump: Vec<Value> = solution
+        .unassigned
+        .iter()
+        .map(|(job, info)| {
+            let dimens = job.dimens();
+            json!({
+                "jobId": dimens.get_job_id().cloned(), "vehicleId": dimens.get_vehicle_id().cloned(),
+                "shiftIndex": dimens.get_shift_index().copied(), "type": dimens.get_job_type().cloned(),
+                "info": match info {
+                    UnassignmentInfo::Unknown => json!("unknown"),
+                    UnassignmentInfo::Simple(code) => json!({"simple": code.0}),
+                    UnassignmentInfo::Detailed(details) => json!({"detailed": details.iter().map(|(actor, code)| {
+                        let d = &actor.vehicle.dimens;
+                        json!([d.get_vehicle_id().cloned(), d.get_shift_index().copied(), code.0])
+                    }).collect::<Vec<_>>()}),
+                },
+            })
+        })
+        .collect();
+    let doc_unassigned: Vec<Value> = doc["unassigned"]
+        .as_array()
+        .cloned()
+        .unwrap_or_default()
+        .iter()
+        .map(|u| {
+            let mut reasons: Vec<Value> = u["reasons"]
+                .as_array()
+                .cloned()
+                .unwrap_or_default()
+                .iter()
+                .map(|r| {
+                    json!({"code": r["code"], "description": r["description"],
+                           "details": r.get("details").and_then(|d| d.as_array()).map(|d| d.iter().map(|x| json!([x["vehicleId"], x["shiftIndex"]])).collect::<Vec<_>>())})
+                })
+                .collect();
+            reasons.sort_by_key(|r| r["code"].as_str().unwrap_or("").to_string());
+            json!({"jobId": u["jobId"], "reasons": reasons})
+        })
+        .collect();
+    let doc_violations: Vec<Value> = doc["violations"]
+        .as_array()
+        .cloned()
+        .unwrap_or_default()
+        .iter()
+        .map(|v| json!([v["vehicleId"], v["shiftIndex"]]))
+        .collect();
     let simple = simplify_solution(&doc);
-    json!({"routes": routes, "tours": simple["tours"], "statistic": simple["statistic"]})
+    json!({"routes": routes, "tours": simple["tours"], "statistic": simple["statistic"],
+           "unassigned_dump": unassigned_dump, "unassigned": doc_unassigned, "violations": doc_violations})
 }
 
 fn main() {
